@@ -517,6 +517,9 @@ func SimMain(t *testing.T) {
 			sum.NonTrivial++
 		}
 		for _, s := range res.States {
+			if _, seen := states[s]; !seen && os.Getenv("SIM_STATES") != "" {
+				fmt.Printf("STATE %s\n", s)
+			}
 			states[s] = struct{}{}
 		}
 		hashes[res.SeqHash] = struct{}{}
